@@ -140,6 +140,8 @@ def rule_no_memo(ctx, rid="R18.3"):
                 else:
                     r.note(site(f), "@%s on a function that is not validation-reachable" % nm)
     rinit = find_method(prog, "validators.RefResolver", "__init__")
+    # a step of the constructor split out as a private helper (`_memoized(function)`) whose every call site is in the constructor
+    per_instance = calls.with_private_helpers({rinit})
     for m in prog.mods.values():
         for n in ast.walk(m.tree):
             if isinstance(n, ast.Call) and norm(n.func).split(".")[-1] in ("lru_cache", "cache") and not isinstance(n.func, ast.Call):
@@ -151,6 +153,10 @@ def rule_no_memo(ctx, rid="R18.3"):
                 where = "jsonschema/%s.py:%d" % (m.name, n.lineno)
                 if owner is rinit:
                     r.ok(where + " " + owner.qual, "lru_cache created per resolver instance")
+                elif owner is not None and owner in per_instance:
+                    k = sum(1 for c in walk_body(rinit) if isinstance(c, ast.Call) and any(t.kind == "func" and t.func is owner for t in calls.callee(rinit, c)))
+                    for _i in range(max(k, 1)):
+                        r.ok(where + " " + owner.qual, "lru_cache created in a private helper called only by the resolver's constructor: per resolver instance")
                 elif owner is None:
                     # decorator or module level
                     is_deco = any(isinstance(fn, (ast.FunctionDef,)) and any(n is d or n in ast.walk(d) for d in fn.decorator_list) for fn in ast.walk(m.tree))
